@@ -131,8 +131,12 @@ def s_lambda_call(const):
     return {"k": "lambda_call", "const": const}
 
 
-def s_nested_def(const, vid=None):
-    return {"k": "nested_def", "const": const, "var": vid}
+def s_nested_def(const, vid=None, fn=None):
+    """A function defined inside the body and called there; optionally it reads a variable / calls a (parameterless) helper."""
+    d = {"k": "nested_def", "const": const, "var": vid}
+    if fn is not None:
+        d["fn"] = fn
+    return d
 
 
 def s_block(const, inside=False):
@@ -418,6 +422,8 @@ def _render_fn_lines(p, fid, ctx, prelude):
             extra = ""
             if s.get("var"):
                 extra = ", " + ctx.var_expr(s["var"], "bare")
+            if s.get("fn"):
+                extra += ", %s()" % ctx.fn_expr(s["fn"])
             lines.append("        return (\"inner\", %d%s)" % (s["const"], extra))
             lines.append("    x%d = inner%d()" % (i, i))
         elif k == "nested_eval":
@@ -550,7 +556,7 @@ def refs_of(p, fid, runtime=False):
         for a in s.get("args", []):
             if a["k"] == "callarg":
                 out.append(a["fn"])
-        if s["k"] in ("call", "keep", "ref"):
+        if s["k"] in ("call", "keep", "ref") or (s["k"] == "nested_def" and s.get("fn")):
             out.append(s["fn"])
         if s["k"] == "method" or (s["k"] == "clsattr" and not runtime):
             # a class is one unit: a function that refers to it depends on everything its body refers to
